@@ -61,6 +61,20 @@ def check_geometry(np, ce, pts, heights, poly, line_height, scale):
         coords = eng.get_crop_inputs(b, list(heights), line_height)
     except Exception as e:
         return [('non-degenerate-baseline-is-cropped', 'get_crop_inputs raised %r (interpolation order %d)' % (e, poly))]
+    # the same line with its heights as TextLine stores them after import (a float64 array), cropped twice: the line itself is
+    # left as it was, and every crop of it is the same map (a crop that rescales the caller's heights in place samples a
+    # taller band the next time the line is cropped)
+    hs, b2 = np.asarray(heights, dtype=np.float64), b.copy()
+    try:
+        again = [eng.get_crop_inputs(b2, hs, line_height) for _ in range(2)]
+    except Exception as e:
+        return [('non-degenerate-baseline-is-cropped', 'get_crop_inputs raised %r for heights given as a float64 array (interpolation order %d)' % (e, poly))]
+    if not np.array_equal(hs, np.asarray(heights, dtype=np.float64)) or not np.array_equal(b2, b):
+        bad.append(('crop-leaves-the-line-unchanged', 'after cropping, heights %r became %r' % (list(heights), hs.tolist())))
+    for k, c in enumerate(again):
+        if c.shape != coords.shape or np.abs(c.astype(float) - coords.astype(float)).max() > 1e-3:
+            bad.append(('same-line-cropped-again-is-identical', 'crop #%d of the line with array heights has map shape %r, the first crop %r' % (k + 1, c.shape, coords.shape)))
+            break
     h0, h1 = heights[0] * scale, heights[1] * scale
     s = line_height / (h0 + h1)
     L = poly_len(pts)
